@@ -636,3 +636,50 @@ mod tests {
     );
   }
 }
+
+#[cfg(samlang_verif)]
+pub mod verif_hooks {
+  //! Verification hooks (C16): the private list differ on plain integer lists, and the module
+  //! diff on arbitrary module pairs. Add-only; compiled only with `--cfg samlang_verif`.
+  use super::ChangeWithoutLoc;
+  use samlang_ast::{Location, source::Module};
+  use samlang_heap::{Heap, ModuleReference};
+
+  #[derive(Debug, Clone, PartialEq, Eq)]
+  pub enum PlainChange {
+    Replace(i64, i64),
+    Delete(i64),
+    Insert { items: Vec<i64>, has_separator: bool, leading_separator: bool },
+  }
+
+  pub fn list_diff(old: &[i64], new: &[i64]) -> Vec<(i32, PlainChange)> {
+    super::list_differ::compute(old, new)
+      .into_iter()
+      .map(|(pos, c)| {
+        (
+          pos,
+          match c {
+            ChangeWithoutLoc::Replace(a, b) => PlainChange::Replace(*a, *b),
+            ChangeWithoutLoc::Delete(a) => PlainChange::Delete(*a),
+            ChangeWithoutLoc::Insert { items, separator, leading_separator } => {
+              PlainChange::Insert {
+                items: items.to_vec(),
+                has_separator: separator.is_some(),
+                leading_separator,
+              }
+            }
+          },
+        )
+      })
+      .collect()
+  }
+
+  pub fn module_diff_edits(
+    heap: &Heap,
+    module_reference: ModuleReference,
+    old: &Module<()>,
+    new: &Module<()>,
+  ) -> Vec<(Location, String)> {
+    super::compute_module_diff_edits(heap, module_reference, old, new)
+  }
+}
